@@ -598,8 +598,51 @@ def route_v_cases(rng, nq):
     """(driver line, Gallina term of type list Z) pairs for integer-only model functions"""
     out = []
     R = 13108968793781547619861935127046491459309155893440570251786403306729687672801
+    import ecref as E
+    def pt3(p, l=None):
+        l = l or rng.choice([1, rng.randrange(2, E.P)])
+        return (p[0] * l % E.P, p[1] * l % E.P, l)
+    def coqpt(t):
+        return "(fp %d, fp %d, fp %d)" % t
+    base = [E.G, E.add(E.G, E.G), E.smul(rng.randrange(1, R), E.G), E.ID, (0, E.P - 1)]
     for _ in range(nq):
-        k = rng.randrange(8)
+        k = rng.randrange(15)
+        if k == 8:
+            v = rng.choice([0, 1, 4, E.P - 1, rng.randrange(E.P), pow(rng.randrange(E.P), 2, E.P)])
+            out.append(("rv sqrt %d" % v, "(match sqrt_precomp (fp %d) with Some y => [1; zval y] | None => [0] end)" % v))
+            continue
+        if k == 9:
+            a, b = pt3(rng.choice(base)), pt3(rng.choice(base))
+            out.append(("rv bwadd %d %d %d %d %d %d" % (a + b),
+                        "(let '(X, Y, Zc) := bw_add %s %s in [zval X; zval Y; zval Zc])" % (coqpt(a), coqpt(b))))
+            continue
+        if k == 10:
+            a = pt3(rng.choice(base))
+            out.append(("rv bwbytes %d %d %d" % a, "(bw_bytes %s ++ [zval (bw_map_to_scalar %s)])" % (coqpt(a), coqpt(a))))
+            continue
+        if k == 11:
+            p_ = rng.choice(base)
+            q_ = rng.choice([p_, E.neg(p_), ((-p_[0]) % E.P, (-p_[1]) % E.P), rng.choice(base)])
+            a, b = pt3(p_), pt3(q_)
+            out.append(("rv bweq %d %d %d %d %d %d" % (a + b), "[if bw_equal %s %s then 1 else 0]" % (coqpt(a), coqpt(b))))
+            continue
+        if k == 12:
+            x = rng.choice([E.compress(rng.choice(base)), rng.randrange(1 << 256).to_bytes(32, "big"),
+                            (int.from_bytes(E.compress(base[2]), "big") + E.P).to_bytes(32, "big")])
+            out.append(("rv bwdec %s" % x.hex(),
+                        "(match bw_set_bytes %s false with inl (X, Y, Zc) => [1; zval X; zval Y; zval Zc] | inr _ => [0] end)" % _zl(list(x))))
+            continue
+        if k == 13:
+            a = pt3(rng.choice(base))
+            sc = rng.choice([0, 1, 2, R - 1, rng.randrange(R), rng.randrange(1 << 16)])
+            out.append(("rv bwsmul %d %d %d %d" % ((sc,) + a),
+                        "(bw_bytes (bw_smul (fr %d) %s))" % (sc, coqpt(a))))
+            continue
+        if k == 14:
+            a = pt3(rng.choice(base))
+            out.append(("rv bwdbl %d %d %d" % a,
+                        "(let '(X, Y, Zc) := bw_double %s in [zval X; zval Y; zval Zc] ++ [if bw_is_on_curve %s then 1 else 0])" % (coqpt(a), coqpt(a))))
+            continue
         if k == 0:
             n, m = rng.randrange(0, 300), rng.randrange(1, 40)
             out.append(("rv ranges %d %d" % (n, m), "flat_map (fun r : Z * Z => [fst r; snd r]) (execute_ranges %d %d)" % (n, m)))
@@ -646,7 +689,8 @@ def route_v(ctx, nq=40):
     src = os.path.join(d, "cases_%s.v" % ctx.pid)
     open(src, "w").write(
         "From Coq Require Import ZArith List Bool.\nFrom GoIpa Require Import Model.Parallel Model.Bytes Model.Zq Model.Sha256 "
-        "Model.Alg Model.Transcript Model.Codec Model.Pippenger Model.Mont Model.Precomp Model.Concrete.\n"
+        "Model.Alg Model.Transcript Model.Codec Model.Pippenger Model.Mont Model.Precomp Model.SqrtChain Model.FpSqrt Model.Edwards "
+        "Model.Banderwagon Model.Concrete.\n"
         "Import ListNotations.\nOpen Scope Z_scope.\n"
         "Definition cases : list (list Z * list Z) := [\n" + ";\n".join(body) + "\n].\n"
         "Definition nbad := Eval vm_compute in length (filter (fun p : list Z * list Z => negb (list_eqb (fst p) (snd p))) cases).\n"
